@@ -166,7 +166,7 @@ func (s *schedSource) Read(p []byte) (int, error) {
 		return 0, s.errVal
 	}
 	limit := len(s.data)
-	if s.spec.Released >= 0 && !s.gateOpen && s.spec.Released < limit {
+	if s.spec.Released >= 0 && !s.gateOpen && s.spec.Released <= limit {
 		limit = s.spec.Released
 		if s.pos >= limit {
 			// the Reader asks for bytes that a blocking source would not deliver
